@@ -38,6 +38,7 @@ class Recorder:
         self.vlen = {}
         self.names = set()
         self.D = [str(d) for d in range(a.conf.nd)]
+        self.inomode = bool(getattr(a.conf, "inomode", False))
         self.last = None
         self.lines.append({"e": "Reset", "state": self.state()})
 
@@ -79,6 +80,8 @@ class Recorder:
                 else:
                     self.names.add(name)
                     fl[name] = {"b": [self.note_val(v) for v in f["b"]], "mt": f["mt"], "sz": f["sz"]}
+                    if self.inomode:
+                        fl[name]["ino"] = "i%d" % f["ino"]
             st["fs"][d] = fl
             st["lk"][d] = lk
             st["dr"][d] = sorted(dr)
@@ -136,6 +139,8 @@ class Recorder:
                     self.names.add(name)
                     cf[name] = {"sz": f["sz"], "mt": f["mt"],
                                 "bl": [{"pos": p, "st": s, "h": stale(s, self.hs(kind_ok(p, h)))} for p, s, h in f["bl"]]}
+                    if self.inomode:
+                        cf[name]["ino"] = "i%d" % f["ino"]
                 for p, h in c["del"][d].items():
                     dl[int(p)] = stale("DEL", self.hs(kind_ok(int(p), h)))
             out["cf"][d] = cf
@@ -198,6 +203,22 @@ class Recorder:
     def now(self):
         return self.a.clock - BASE_TIME
 
+    def trusted(self):
+        """disks whose recorded inode numbers the next scan trusts: the UUID recorded for the disk is the one it reports now
+        (--test-fake-uuid: 'fake-uuid-2' for the first data disk of the configuration, 'fake-uuid-1' for the second)"""
+        if not self.inomode:
+            return []
+        res = []
+        c = next((x for x in (self.last or {}).get("cont", []) if isinstance(x, dict)), None)
+        if not c:
+            return res
+        nd = self.a.conf.nd
+        order = list(reversed(range(nd))) if getattr(self.a, "data_reversed", False) else list(range(nd))
+        for k, d in enumerate(order[:2]):
+            if c.get("uuid", {}).get(str(d)) == "fake-uuid-%d" % (2 - k):
+                res.append(str(d))
+        return sorted(res)
+
     def sync(self, *flags, midrun=None, rules=None, extra_args=()):
         """midrun: shell command run after the scan and before the stripes are read (--test-run)"""
         opts = {"force_full": "-F" in flags, "force_empty": "-E" in flags, "force_zero": "-Z" in flags,
@@ -208,6 +229,7 @@ class Recorder:
         opts["prehash"] = "-h" in flags
         opts["force_realloc"] = "-R" in flags
         pre_fs = self.last["fs"]
+        trusted = self.trusted()
         args = list(flags) + list(extra_args)
         if midrun:
             args = ["--test-run", midrun] + args
@@ -236,6 +258,8 @@ class Recorder:
         opts["stop"] = int(sg[0][1]) + 1 if sg else 0
         line = {"e": "Sync", "args": {"opts": opts, "now": self.now(), "srcs": srcs, "flags": list(flags), "rules": rules or []},
                 "state": st, "out": out}
+        if self.inomode:
+            line["args"]["trusted"] = trusted
         if midrun:
             line["fs1"] = st["fs"]
         self.lines.append(line)
@@ -504,11 +528,12 @@ class Recorder:
         return r, {"exit": "ok" if r.rc == 0 else "rc%d" % r.rc}
 
     def diff(self):
+        trusted = self.trusted()
         r = self.a.run("diff")
         ex = [t[2] for t in r.tag("summary") if len(t) > 2 and t[1] == "exit"]
         out = {"exit": "equal" if r.rc == 0 else ("diff" if r.rc == 2 else "rc%d" % r.rc), "rc": r.rc,
                "scan": ex[-1] if ex else "none"}
-        self.lines.append({"e": "Diff", "args": {}, "state": self.state(), "out": out})
+        self.lines.append({"e": "Diff", "args": ({"trusted": trusted} if self.inomode else {}), "state": self.state(), "out": out})
         return r, out
 
     # ---- output
